@@ -14,7 +14,7 @@ CONCEPTS = ['node', 'color', 'room', 'patient', 'seat', 'waiter', 'drink', 'movi
 ATTRS = ['name', 'weight', 'cost', 'level', 'size', 'kind', 'rank', 'code']
 VERBS = [('rated', 'by'), ('assigned', 'to'), ('sent', 'to'), ('placed', 'in'), ('taken', 'from'), ('linked', 'to'),
          ('chosen', None), ('marked', None), ('picked', None), ('kept', 'in')]
-LABELS = ['X', 'Y', 'Z', 'W', 'V', 'U', 'P', 'Q', 'R', 'S', 'T', 'A', 'B', 'C', 'D', 'E', 'N', 'M', 'K', 'H']
+LABELS = ['X', 'Y', 'Z', 'W', 'V', 'U', 'P', 'Q', 'R', 'S', 'T', 'B', 'C', 'D', 'E', 'N', 'M', 'K', 'H', 'G']
 CMP = ['equal to', 'the same as', 'different from', 'more than', 'greater than', 'less than', 'greater than or equal to',
        'less than or equal to', 'at least', 'at most', 'not after']
 
@@ -181,7 +181,8 @@ def gen_spec(rng, size=None, temporal=False):
     n = size or rng.randrange(2, 7)
     if rng.random() < 0.35:
         sp.sentences.append(s_enum_tail(rng, sp))
-    makers = [s_fact, s_choice_every, s_whenever_then, s_whenever_then_attr, s_constraint_there_is, s_constraint_clause, s_constraint_cmp,
+    makers = [s_fact, s_choice_every, s_whenever_then, s_whenever_then_attr, s_clause_params, s_aggregate_passive,
+              s_agg_vs_agg, s_constraint_there_is, s_constraint_clause, s_constraint_cmp,
               s_aggregate_count, s_definition_when, s_enumerative_where, s_preference]
     tries = 0
     while len([s for s in sp.sentences if s.kind not in ('declaration', 'constant', 'range', 'enumeration')]) < n and tries < 40:
@@ -510,3 +511,68 @@ def gen_faulty(rng):
         pos = rng.randrange(len([x for x in sp.sentences if x.kind in ('declaration', 'constant')]), pos + 1)
     sp.sentences.insert(pos, s)
     return sp, cls, pos, name
+
+
+def _simple_verbs(sp):
+    """verbs `subject be <verb> <prep> object` whose subject and object are single-own-key concepts"""
+    return [(k, v) for k, v in sp.verbs.items()
+            if len(v[3]) == 1 and v[1] not in (None, 'by') and v[2].single_own_key() and v[3][0].single_own_key()]
+
+
+def s_clause_params(rng, sp):
+    """`It is prohibited that waiter with id equal to W[, with salary greater than 3] is assigned to a pub.`"""
+    vs = _simple_verbs(sp)
+    if not vs:
+        return None
+    key, (v, prep, subj, objs) = rng.choice(vs)
+    o = objs[0]
+    w, p = fresh_labels(rng, 2)
+    kname = subj.keys[0][1]
+    form = rng.choice([f'with {kname} {w}', f'with {kname} equal to {w}'])
+    vars_ = [w]
+    if subj.attrs and rng.random() < 0.6:
+        form += f', with {subj.attrs[0]} {rng.choice(["greater than", "less than"])} {rng.randrange(1, 5)}'
+    if rng.random() < 0.5:
+        obj = f'{o.name} {p}'
+        vars_.append(p)
+    else:
+        obj = f'{article(o.name)} {o.name}'
+    return Sentence(f'It is prohibited that {subj.name} {form} is {v} {prep} {obj}.', 'clause_params', author_vars=vars_,
+                    uses=[subj.name, o.name, key])
+
+
+def s_aggregate_passive(rng, sp):
+    """`It is prohibited that the number of pub [id V] where a waiter [W] is assigned to is more than 2[, whenever there is a waiter W].`"""
+    vs = _simple_verbs(sp)
+    if not vs:
+        return None
+    key, (v, prep, subj, objs) = rng.choice(vs)
+    o = objs[0]
+    w, vv = fresh_labels(rng, 2)
+    vars_ = []
+    counted = f'{o.name}'
+    if rng.random() < 0.5:
+        counted += f' {o.keys[0][1]} {vv}'
+        vars_.append(vv)
+    who = f'a {subj.name}'
+    tail = ''
+    if rng.random() < 0.6:
+        who += f' {w}'
+        vars_.append(w)
+        if rng.random() < 0.5:
+            tail = f', whenever there is {article(subj.name)} {subj.name} {w}'
+    pol = rng.choice(['prohibited', 'required'])
+    text = (f'It is {pol} that the number of {counted} where {who} is {v} {prep} is {rng.choice(CMP)} {rng.randrange(0, 4)}{tail}.')
+    return Sentence(text, 'aggregate_passive', author_vars=vars_, uses=[subj.name, o.name, key])
+
+
+def s_agg_vs_agg(rng, sp):
+    vs = _simple_verbs(sp)
+    if len(vs) < 1:
+        return None
+    (k1, (v1, p1, s1, o1)) = rng.choice(vs)
+    (k2, (v2, p2, s2, o2)) = rng.choice(vs)
+    w, p = fresh_labels(rng, 2)
+    text = (f'It is prohibited that the number of {o1[0].name} where a {s1.name} {w} is {v1} {p1} is {rng.choice(CMP)} '
+            f'the number of {o2[0].name} where a {s2.name} {p} is {v2} {p2}.')
+    return Sentence(text, 'agg_vs_agg', author_vars=[w, p], uses=[s1.name, s2.name, k1, k2])
